@@ -108,12 +108,13 @@ def cases(quick, rng):
             v = junior.fmt(c, form)
             if v is None:
                 continue
+            opt = form in junior.OPTIONAL_FORMS      # not a documented form: in the shared domain only if both sides answer
             if sys_ == 'tyrving':
                 g, ev = key.split('|')
-                C.append({'f': 'ty', 'a': [g, age, ev, v]})
+                C.append({'f': 'ty', 'a': [g, age, ev, v], 'opt': opt})
             else:
                 ct, ev = key.split('|')
-                C.append({'f': 'qk', 'a': [ct, ev, v]})
+                C.append({'f': 'qk', 'a': [ct, ev, v], 'opt': opt})
     return C
 
 
@@ -153,7 +154,7 @@ def run(tier):
         with Pool(common.NCPU) as pool:
             py = [x for part in pool.map(_py_job, shards) for x in part]
             js = [x for part in pool.map(_js_job, [(s, sc.path, k) for k, s in enumerate(shards)]) for x in part]
-        recs = [{'py': p, 'js': j} for p, j in zip(py, js)]
+        recs = [{'py': p, 'js': j, 'opt': bool(c.get('opt'))} for p, j, c in zip(py, js, C)]
         reports, outs = common.validate_records(specdir, sc, 'Trace_Port', recs)
         per = {}
         for c in C:
